@@ -963,7 +963,9 @@ theorem apiClose_inv {p : Pair} {x : Side} {id : Nat} {r : Pair × Py Out} (hp :
     cases h; exact hp.same (sockClose_same hc)
   · rename_i a haddr
     split at h
-    · cases h; exact hp
+    · simp only [Py.bind_eq_ok] at h
+      obtain ⟨p1, hc, h⟩ := h
+      cases h; exact hp.same (sockClose_same hc)
     · simp only [Py.bind_eq_ok] at h
       obtain ⟨p1, hc, h⟩ := h
       have s1 := sockClose_same hc
